@@ -107,10 +107,6 @@ def meta_diffs(z, y, kind, basis_exp):
     if common.hz(y.channel_freqs) != common.hz(z.channel_freqs) or common.hz(y.center_freq) != common.hz(z.center_freq) \
             or common.hz(y.chan_bw) != common.hz(z.chan_bw):
         bad.append("frequency labels changed")
-    if isinstance(z.data, common.da.Array) != isinstance(y.data, common.da.Array):
-        bad.append("container %s -> %s" % (type(z.data).__name__, type(y.data).__name__))
-    if y.data.dtype.kind != ("c" if kind == "pol" else "f"):
-        bad.append("dtype %s" % y.data.dtype)
     return bad
 
 
